@@ -132,3 +132,24 @@ Proof.
       destruct Hr as [Hr|[_ Hr]]; [left|right]; exact Hr.
     + intros -> ->. apply (whole_pass st0 sp Hwf st' HI). intros r Hin. apply Hc; [exact Hin|]. apply in_range_iff. split; [apply lex_nil_le|left; reflexivity].
 Qed.
+
+(* ------------------------------------------------------------------ a pass that stops early is harmless, a retry completes the job *)
+Lemma failed_pass_harmless : forall view st0 sp limit s e n os1 st1 key1 fuel os2 st' tr,
+  faithful_view view -> wf_store st0 -> (0 < limit)%nat -> Forall (oracle_ok st0 sp) os1 -> Forall (oracle_ok st0 sp) os2 ->
+  gc_steps n sp limit e os1 st0 s = Some (st1, key1) ->
+  (forall r1, In r1 st1 -> exists r0, In r0 st0 /\ k_key r0 = k_key r1 /\ (r1 = r0 \/ r1 = resolve_by_outcome st0 sp r0)) /\
+  (forall p t, (forall r l, In r st0 -> k_lock r = Some l -> l_start l = t -> is_pess l = false -> l_primary l = p) ->
+       committed_at st1 p t = committed_at st0 p t) /\
+  (gc_resolve_range_v view fuel sp limit s e os2 st1 = GcOk st' tr ->
+     (forall r, In r st' -> in_range s e (k_key r) = true -> old_lock sp r = false) /\
+     (s = [] -> e = [] -> st' = resolve_all st0 sp)).
+Proof.
+  intros view st0 sp limit s e n os1 st1 key1 fuel os2 st' tr Hf Hwf Hl Ho1 Ho2 H.
+  destruct (gc_steps_inv st0 sp Hwf limit s e Hl n os1 st0 s st1 key1 (InvP_init st0 sp) Ho1 (cleared_start sp s st0) H) as [HI _].
+  split; [|split].
+  - intros r1 Hin. destruct (proj2 HI _ Hin) as (r0 & Hin0 & Hr). exists r0. split; [exact Hin0|]. split; [symmetry; eapply rel0_key; exact Hr|].
+    destruct Hr as [Hr|[_ Hr]]; [left|right]; exact Hr.
+  - intros p t Hid. apply (outcome_stable st0 sp Hwf st1 p t HI Hid).
+  - intros H2. destruct (gc_outcomes_kept_v view st0 sp limit s e fuel os2 st1 st' tr Hf Hwf Hl HI Ho2 H2) as (_ & _ & _ & G4).
+    destruct (gc_no_old_lock_v view st0 sp limit s e fuel os2 st1 st' tr Hf Hwf Hl HI Ho2 H2) as [G1 _]. split; assumption.
+Qed.
